@@ -380,8 +380,20 @@ func (env *specEnv) specEq(a, b SVal) Term {
 func (env *specEnv) evalSel(x *ESel) SVal {
 	c := env.c
 	v := env.eval(x.X)
-	// ghost field?
-	if g := c.eng.ghosts[x.Name]; g != nil {
+	// ghost field? (a real field of the value's struct type with the same name wins)
+	realField := false
+	if v.GoT != nil {
+		if _, st, ok := isPtrToStruct(v.GoT); ok {
+			if i, _ := findFieldPath(st, x.Name); i >= 0 {
+				realField = true
+			}
+		} else if st, ok := structOf(v.GoT); ok {
+			if i, _ := findFieldPath(st, x.Name); i >= 0 {
+				realField = true
+			}
+		}
+	}
+	if g := c.eng.ghosts[x.Name]; g != nil && !realField {
 		arr := c.heapGet(env.heap, "G "+g.Name, arraySort(SInt, specSort(g.Sort)))
 		return SVal{T: sel(arr, v.T), GoT: specGoType(g.Sort)}
 	}
